@@ -12,7 +12,7 @@ from ..core import AnalysisError, norm
 from ..fx import FX, PyTuple
 from .. import boolx as B
 from .. import q
-from ..rules_stream import fx_of, fail_closed, prio, fsm_sanity, s4_hold, short
+from ..rules_stream import fx_of, fail_closed, prio, fsm_sanity, s4_hold, short, fsm_txn_state
 
 ALW = "litex/soc/interconnect/axi/axi_lite_to_wishbone.py"
 AFL = "litex/soc/interconnect/axi/axi_full_to_axi_lite.py"
@@ -62,6 +62,8 @@ def run(ctx):
                    "w.strb on writes, all ones on reads; AHB size->sel leaves are byte-lane masks on the matching address slice",
              min_sites=37)
     ctx.rule("B6", "fairness flag: set by a read, cleared by a write, consulted exactly when both requests are valid", min_sites=6)
+    ctx.rule("B9", "per-transaction FSM registers (counters, sticky resp latches, done flags) are re-initialised in the reset state "
+                   "or cleared in every successor of the accumulating state: nothing is inherited by the next transaction", min_sites=9)
     ctx.rule("B8", "slave read data is registered only under the slave's response (ack / valid&ready)", min_sites=4)
 
     # ================================================================ B1 / B2
@@ -289,6 +291,11 @@ def run(ctx):
         B.equivalent(B.And(st, drf), B.And(st, B.from_expr("axi_lite.ar.valid & (~last_was_read | ~axi_lite.aw.valid)")))
     ctx.ob("B6", AL, "axi_lite_to_simple", "do_write/do_read alternate when both are valid", ok,
            "" if ok else f"do_write = {B.show(dwf) if dwf else '?'}; do_read = {B.show(drf) if drf else '?'}")
+
+    # ================================================================ B9
+    PERSIST = {"last_was_read": "fairness flag, persistent by design (B6)", "_last_ar_aw_n": "fairness flag, persistent by design (B6)"}
+    for rel, name, is_func, _ in HOLD:
+        fsm_txn_state(ctx, "B9", _fx(ctx, rel, name, is_func), name, persistent=PERSIST)
 
     # ================================================================ B8
     for rel, name, reg, src, resp in ((ALW, "AXILite2Wishbone", "_data", "wishbone.dat_r", "wishbone.ack"),
